@@ -102,59 +102,45 @@ NAMED_ROOTS = [r"^http_util::http_extract_path_params$", r"^extractor::query::ht
 HANDLER_CALL = r"handler::HttpHandlerFunc::handle_request$"
 
 
-def is_unknown_fn(ds, fid):
-    """A crate-local function that is not on tables/known_functions.txt, i.e. one introduced by a refactoring."""
-    from .engine import known_functions
-    k = known_functions()
-    return k is not None and (ds.crate, fid) not in k
-
-
-def lift_site(ds, g, bb, t, max_hops=3):
-    """A call site seen from the caller of a refactoring-introduced *async* helper.
-
-    Plain helper functions are inlined by the engine; an `async fn` helper is not (its body is a coroutine that
-    the caller creates and then awaits).  If the call `t` at (g, bb) sits in the coroutine body of an unknown
-    function that has exactly one live caller, return that caller's call site instead, together with, for every
-    argument of `t`, the slices walked inside the helper(s) and the caller's operand the argument was captured
-    from (None if it is not exactly one parameter of the helper).  The helper's coroutine exists only once the
-    caller's call ran, so a guard that dominates the caller's call guards everything the helper does.
-    Returns (fn, bb, [(inner_slices, operand_or_None), ..])."""
-    from .lib import root_fn
-    args = [([], a) for a in t["args"]]
-    cur, cbb = g, bb
+def resolve_place(fn, op, max_hops=40):
+    """Canonical origin of an operand/place, following *unique* definitions and keeping field projections:
+    `x = move y` (x.p -> y.p), `x = Agg{a, b}` (x.1.p -> b.p; tuples, structs, closure/coroutine environments),
+    `r = &y` (r -> y, (*r).p -> y.p).  Stops at parameters, calls and locals with several definitions and returns a
+    copy operand of the place reached.  The engine's backward slice is field-insensitive across whole-local copies
+    (`env2 = env1; env2.0` reaches every captured value — which is exactly what helper inlining produces), so
+    rules that ask *which* captured value an argument is resolve it first and slice the result."""
+    pl = op["pl"] if "k" in op else op
+    if "k" in op and op["k"] not in ("copy", "move"):
+        return op
+    l, proj = pl["l"], list(pl["p"])
     for _ in range(max_hops):
-        gt = root_fn(ds, cur)
-        if gt is cur or not is_unknown_fn(ds, gt.id) or ds.body_of(gt) is not cur:
+        if 1 <= l <= fn.argc:
             break
-        cs = callers(ds, "^" + re.escape(gt.id) + "$")
-        if len(cs) != 1:
+        dd = fn.defs().get(l, [])
+        if len(dd) != 1 or dd[0][1] != "assign" or dd[0][2]["pl"]["p"]:
             break
-        f2, b2, t2 = cs[0]
-        new = []
-        for inner, op in args:
-            if op is None:
-                new.append((inner, None))
-                continue
-            sl = cur.slice(op)
-            ps = upvar_params(ds, cur, sl)
-            if ps is None or len(ps) != 1 or not (1 <= list(ps)[0] <= len(t2["args"])):
-                new.append((inner + [sl], None))
-            else:
-                new.append((inner + [sl], t2["args"][list(ps)[0] - 1]))
-        args, cur, cbb = new, f2, b2
-    return cur, cbb, args
+        rv = dd[0][2]["rv"]
+        if rv["rv"] == "use" and rv["op"].get("k") in ("copy", "move"):
+            l, proj = rv["op"]["pl"]["l"], list(rv["op"]["pl"]["p"]) + proj
+        elif rv["rv"] == "agg" and proj and isinstance(proj[0], dict) and "f" in proj[0] and rv.get("agg") in ("closure", "coroutine", "tuple") \
+                and proj[0]["f"] < len(rv["ops"]) and rv["ops"][proj[0]["f"]].get("k") in ("copy", "move"):
+            o = rv["ops"][proj[0]["f"]]
+            l, proj = o["pl"]["l"], list(o["pl"]["p"]) + proj[1:]
+        elif rv["rv"] == "ref" and (not proj or proj[0] == "*"):
+            l, proj = rv["pl"]["l"], list(rv["pl"]["p"]) + proj[1:]
+        else:
+            break
+    return {"k": "copy", "pl": {"l": l, "p": proj}}
 
 
 def generic_route_handler(ctx, R):
     """The coroutine body of the one RouteHandler::handle_request impl that calls
-    HttpHandlerFunc::handle_request (the generic HttpRouteHandler; not the stub) — directly or through an
-    async helper introduced by a refactoring."""
-    ds = ctx.ds
-    lifted = set(lift_site(ds, g, bb, t)[0].id for g, bb, t in callers(ds, HANDLER_CALL))
+    HttpHandlerFunc::handle_request (the generic HttpRouteHandler; not the stub).  A call moved into a private
+    (async) helper is seen here too: the engine inlines refactoring-introduced helpers into their callers."""
     out = []
-    for i, f in impl_fns(ds, r"^handler::RouteHandler", "handle_request"):
-        b = ds.body_of(f)
-        if b.id in lifted:
+    for i, f in impl_fns(ctx.ds, r"^handler::RouteHandler", "handle_request"):
+        b = ctx.ds.body_of(f)
+        if b.live_calls(HANDLER_CALL):
             out.append((f, b))
     if len(out) != 1:
         ctx.lost(R, "the RouteHandler::handle_request impl that calls HttpHandlerFunc::handle_request (%d found)" % len(out))
